@@ -118,15 +118,20 @@ def params(tier):
     ps.append({"sources": two[:1], "cancel": {"by": "id", "how": "same", "target": 0, "at": 0.5}, "bound": 2, "time_horizon": 1.5})
     ps.append({"sources": two[:1], "cancel": {"by": "name", "how": "number", "name": "A", "at": 0.5}, "bound": 2, "time_horizon": 1.5})
     ps.append({"sources": two, "cancel": {"by": "id", "how": "same", "target": 1}, "bound": 2, "time_horizon": 1.0})
-    if not q:
-        ps.append({"sources": two, "cancel": {"by": "name", "how": "literal", "name": "A", "at": 1.0}, "bound": 2, "time_horizon": 2.0})
-        ps.append({"sources": SRC3, "cancel": {"by": "id", "how": "same", "target": 0, "at": 0.5}, "bound": 2, "time_horizon": 1.0})
+    if not q:       # heavy: explored under a wall-clock budget, reported separately (coverage.heavy_extra)
+        ps.append({"sources": two, "cancel": {"by": "name", "how": "literal", "name": "A", "at": 1.0}, "bound": 2, "time_horizon": 2.0, "heavy": True})
+        ps.append({"sources": SRC3, "cancel": {"by": "id", "how": "same", "target": 0, "at": 0.5}, "bound": 2, "time_horizon": 1.0, "heavy": True})
     return ps
 
 
 def run(tier):
     res = Result(PID)
-    st = explore.explore(C11("line"), params(tier), 2)
+    allp = params(tier)
+    st = explore.explore(C11("line"), [p for p in allp if not p.get("heavy")], 2)
+    hx = None
+    if any(p.get("heavy") for p in allp):
+        hx = explore.extra(st, C11("line"), [p for p in allp if p.get("heavy")], 2, 1500,
+                           "two/three sources with a cancel at 0.5-1.0 s, bound 2, time horizon 1-2 s")
     ix = None
     if tier != "quick":
         racy = [dict(p, bound=2.015) for p in params(tier) if p.get("bound") == 2][:3]
@@ -136,6 +141,8 @@ def run(tier):
          "Event(number) / Event('name') / run-time built name / dumps+loads} and cancel racing a timer that is due")
     if ix:
         res.coverage["instruction_extra"] = ix
+    if hx:
+        res.coverage["heavy_extra"] = hx
     res.assumptions = ["'after the cancelling call returns' = scheduler step index of the return vs step index of each queue append",
                        "sources that ended on their own may stay in the tracked list (not constrained)"]
     return res
